@@ -36,6 +36,15 @@ def run(r):
     r.assumptions = ASSUME
     # (1) design level: exhaustive exploration of histories, invariants + append-only action property
     mc = r.tlc_must_pass("IntDataMC", cfg_text=mc_cfg(3, 3, 4 if thorough else 3), workers=core.NCPU, timeout=1500)
+    # (1b) implementation level: IntSet as slice headers over shared backing arrays (data/intset.go statement by statement);
+    # Persistent must hold for the repaired Insert, and the pinned aliasing Insert (defect D6) must violate it (control)
+    icfg = ("CONSTANTS D = {1, 2, 3} MaxArgs = 3 MaxOps = %d PinnedInsertAlias = %s\nINIT Init\nNEXT Next\nVIEW View\n"
+            "INVARIANTS Persistent Sorted InCap\nPROPERTY AbstractStep\nCHECK_DEADLOCK FALSE\n")
+    r.tlc_must_pass("IntDataImpl", cfg_text=icfg % (4 if thorough else 3, "FALSE"), workers=core.NCPU, timeout=1500)
+    ctl = r.tlc("IntDataImpl", cfg_text=icfg % (3, "TRUE"), workers=core.NCPU, timeout=900, count=False)
+    r.extra["control_pinned_insert_alias_violates_Persistent"] = bool(ctl.error and "Persistent" in ctl.error)
+    if not r.extra["control_pinned_insert_alias_violates_Persistent"]:
+        raise core.Inconclusive("negative control failed: the aliasing Insert does not violate Persistent in IntDataImpl (%r)" % ctl)
     # (2) model -> code: every history of the bounded family, with the model's expected observations
     # plain histories, and continuations of a prefix of values with shared history / spare capacity (branching from one receiver)
     gens = [(2, 3, 3, "NoPrefix", True), (4, 0, 2, "SharedPrefix", False)] + \
